@@ -133,7 +133,30 @@ func c14Run(c *Ctx, i int, r *gen.R) {
 	cs := &c14Case{Table: spec}
 	c.Case = cs
 	t := tabular.New()
-	b := spec.Build(t)
+	b := spec.BuildStaged(t, -1, nil)
+	// items which were created in an earlier state are mutated now WITHOUT Update: their cells must go on
+	// showing the text they read when they were made, however often the table is rendered
+	mutated := 0
+	for i := range b.Cells {
+		for j := range b.Cells[i] {
+			if m := &b.Cells[i][j]; m.NeedsFinalize() && r.Bool() {
+				m.Mutate(*m.Spec().F)
+				mutated++
+			}
+		}
+	}
+	for j := range b.Header {
+		if m := &b.Header[j]; m.NeedsFinalize() {
+			if r.Bool() {
+				m.Mutate(*m.Spec().F)
+				mutated++
+			}
+		}
+	}
+	b.Rows = t.AllRows()
+	if mutated > 0 {
+		c.Rec.Count("items_mutated_without_Update_before_the_renders", int64(mutated))
+	}
 	// renderer-relevant settings: alignment and skipable, on column 0 and on columns
 	if r.Chance(1, 2) {
 		for n := 0; n <= t.NColumns(); n++ {
@@ -234,6 +257,36 @@ func c14Run(c *Ctx, i int, r *gen.R) {
 			}},
 			rd{"auto.Render " + name, "text:" + name, func() (string, error) { return auto.Render(t, name) }})
 	}
+	// every (owner, key) over a fixed key set is read before the first render - whether set or not - and must read the same afterwards
+	type probe struct {
+		owner string
+		get   func() interface{}
+		want  interface{}
+	}
+	var probes []probe
+	keyset := []interface{}{keyA, keyB, "plain-string-key", "third", align.PropertyType, properties.Skipable}
+	addProbes := func(owner string, acc func() tabular.PropertyOwner) {
+		for _, k := range keyset {
+			k := k
+			probes = append(probes, probe{owner: fmt.Sprintf("%s key %v", owner, k), get: func() interface{} { return acc().GetProperty(k) }})
+		}
+	}
+	addProbes("table", func() tabular.PropertyOwner { return t })
+	for n := 0; n <= t.NColumns(); n++ {
+		n := n
+		addProbes(fmt.Sprintf("column %d", n), func() tabular.PropertyOwner { return t.Column(n) })
+	}
+	for ri, row := range t.AllRows() {
+		ri := ri
+		addProbes(fmt.Sprintf("row %d", ri+1), func() tabular.PropertyOwner { return t.AllRows()[ri] })
+		for ci := range row.Cells() {
+			loc := tabular.CellLocation{Row: ri + 1, Column: ci + 1}
+			addProbes(fmt.Sprintf("cell %+v", loc), func() tabular.PropertyOwner { p, _ := t.CellAt(loc); return p })
+		}
+	}
+	for k := range probes {
+		probes[k].want = probes[k].get()
+	}
 	before := c14Snapshot(t)
 	first := map[string]string{}
 	firstErr := map[string]bool{}
@@ -263,6 +316,13 @@ func c14Run(c *Ctx, i int, r *gen.R) {
 			c.Rec.Violate("state-changes:"+formatClass(x.format), fmt.Sprintf("after render #%d (%s) the table's observable state changed: %s", k+1, x.name, d), cs)
 			return
 		}
+		for _, p := range probes {
+			c.Rec.Count("property_probes_read_back(set and unset keys)", 1)
+			if got := p.get(); got != p.want {
+				c.Rec.Violate("property-appears-or-changes:"+formatClass(x.format), fmt.Sprintf("after render #%d (%s) %s reads %v, before the first render it read %v", k+1, x.name, p.owner, got, p.want), cs)
+				return
+			}
+		}
 		for _, p := range props {
 			c.Rec.Count("user_properties_read_back", 1)
 			if got := p.get(); got != p.want {
@@ -289,7 +349,7 @@ func init() {
 		ID:    "C14",
 		Level: "exploration",
 		Rule: "one random table per case (as in C10, with empty and nil cells, half of the tables with unique non-empty headers so that JSON renders, half with a random alignment assignment and half with a random skipable assignment on column 0 and the columns) with user properties placed before the first render on the table, on 2/3 of the columns incl. column 0, on every row, on half of the cells (up to 3 keys each) and on a cell that received 3 properties before it was added (so its chain is shared with the caller's variable), plus one recorded error; then a random sequence of 5-30 renders drawn from 9 non-text renderers (reused and fresh csv/html/json/markdown wrappers, html with cached template, caption and generator) and 2 text renderers per registered decoration (one reused wrapper switched between decorations, auto.Render). " +
-			"Each output must equal the first of its format; after every render the snapshot (NRows, NColumns, every cell's text, item identity and location, row locations, header texts, error list identities) and all user properties must be unchanged. Distinct = distinct (table, render sequence); non-trivial = at least 2 formats rendered.",
+			"Each output must equal the first of its format; after every render the snapshot (NRows, NColumns, every cell's text, item identity and location, row locations, header texts, error list identities) and all user properties must be unchanged, and every (owner, key) over a fixed key set incl. the alignment and skipable keys must read what it read before the first render, set or not. Items created in an earlier state are mutated without Update before the renders: their cells must keep the text they had. Distinct = distinct (table, render sequence); non-trivial = at least 2 formats rendered.",
 		Assumptions: []string{
 			"no user callback fails or mutates (the statement's proviso)",
 			"the library's private measurement properties and the number of registered callbacks are not part of the snapshot",
